@@ -366,7 +366,7 @@ class Flow:
             if len(A) == 1 and len(B) == 1 and type(A[0]) is type(B[0]) and isinstance(A[0], (ast.Assign, ast.Expr, ast.AugAssign)) \
                     and _pure(st.test, False):
                 m = merge_cond(A[0], B[0], st.test)
-                if m is not None:
+                if m is not None and not (isinstance(m, ast.Expr) and isinstance(m.value, ast.IfExp)):
                     out.append(m)
                     continue
             atoms: List[Tuple[str, ast.AST]] = []
@@ -441,7 +441,8 @@ class Flow:
             # `x = a if c else b` candidates stay leaves
             s0 = stmts[0]
             is_assign_pair = (len(s0.body) == 1 and len(s0.orelse) == 1 and type(s0.body[0]) is type(s0.orelse[0])
-                              and isinstance(s0.body[0], (ast.Assign, ast.Expr, ast.AugAssign)) and merge_cond(s0.body[0], s0.orelse[0], s0.test) is not None)
+                              and isinstance(s0.body[0], (ast.Assign, ast.Expr, ast.AugAssign)) and merge_cond(s0.body[0], s0.orelse[0], s0.test) is not None
+                              and not (isinstance(s0.body[0], ast.Expr) and isinstance(merge_cond(s0.body[0], s0.orelse[0], s0.test).value, ast.IfExp)))
             if not is_assign_pair:
                 saved = list(atoms)
                 t, rem = self.region(stmts, atoms, top=False)
